@@ -27,6 +27,8 @@ class Style:
     def op(self, o):
         if self.break_ops and self.rng is not None:
             r = self.rng.random()
+            if r < 0.12:
+                return '\n    # a comment-only line before the continuation\n\n    ' + o + ' '
             if r < 0.3:
                 return '\n    ' + o + ' '
             if r < 0.6:
@@ -190,9 +192,37 @@ def expr(e, st=DEFAULT, bm=False):
     return s
 
 
+class _NoCtor:
+    """Spelling choice for a node whose operand is bare inline Python: the constructor forms read such an operand
+    as an option value (the exception C19 states), so only the operator form denotes the expression."""
+
+    def __init__(self, st):
+        self.__dict__['_st'] = st
+
+    def __getattr__(self, name):
+        return getattr(self._st, name)
+
+    def ctor(self):
+        self._st.ctor()          # keep the random stream aligned
+        return False
+
+
+def _has_py_operand(e):
+    for x in e[1:]:
+        if isinstance(x, list) and x:
+            if x[0] == 'py':
+                return True
+            if isinstance(x[0], list) and any(isinstance(y, list) and y and y[0] == 'py' for y in x):
+                return True
+    return False
+
+
 def _expr(e, st, bm):
     k = e[0]
     X = lambda x: expr(x, st, bm)
+    if k in ('seq', 'left', 'right', 'choice', 'opt', 'list', 'sep') and _has_py_operand(e):
+        inner_st = st
+        st = _NoCtor(st)
     if k == 'str':
         return str_lit(e[1], bm)
     if k == 'stri':
